@@ -176,6 +176,12 @@ type Action struct {
 	DocOfFieldTypes bool `json:"doc_of_field_types,omitempty"`
 	// DocOfFields: ask Context.Doc about every FIELD of the struct (as runtimedoc does) and render the answer
 	DocOfFields bool `json:"doc_of_fields,omitempty"`
+	// ImportsInOneTemplateFirst: before anything else, ONE RenderT call whose named arguments refer to all of
+	// Imports and whose placeholders appear in the REVERSE order of the argument names (what decides which of
+	// two clashing packages gets the short name is the order of the placeholders in the text)
+	ImportsInOneTemplateFirst bool `json:"imports_in_one_template_first,omitempty"`
+	// DocOfSelf: ask Context.Doc about the type itself and render tags and doc lines as a comment
+	DocOfSelf bool `json:"doc_of_self,omitempty"`
 	// AskDocOfFieldTypes: like DocOfFieldTypes, but the answers are thrown away (nothing is rendered)
 	AskDocOfFieldTypes bool `json:"ask_doc_of_field_types,omitempty"`
 	// Recovered: text rendered through a template that ends in an unbound name: the render panics after it
@@ -228,6 +234,9 @@ type inst struct {
 	seen    map[string]bool
 	helper  bool
 	counter int
+	// state touched by the alias callback
+	aliases     int
+	aliasHelper bool
 }
 
 func fileState(c gengo.Context, gen string) (bool, string) {
@@ -252,6 +261,15 @@ func (in *inst) perform(c gengo.Context, gen string, a Action, typ string) error
 	pkgName := ""
 	if p := c.Package(""); p != nil {
 		pkgName = p.Pkg().Name()
+	}
+	if a.ImportsInOneTemplateFirst && len(a.Imports) > 0 {
+		format := ""
+		var args []snippet.TArg
+		for i, imp := range a.Imports {
+			format = fmt.Sprintf("var _all%d_%s_%s @arg%d\n", i, typ, gen, i) + format
+			args = append(args, snippet.Arg(fmt.Sprintf("arg%d", i), snippet.PkgExpose(subst(imp, strings.ToLower(typ), gen, pkgName), "X")))
+		}
+		c.RenderT(format, args...)
 	}
 	for i, imp := range a.Imports {
 		// (the call also binds an argument NO placeholder uses and which refers to a package of its own: a
@@ -393,6 +411,15 @@ func (in *inst) generate(gen string, c gengo.Context, named *types.Named) error 
 			c.Render(snippet.Block(fmt.Sprintf("const N_%s_%s = %d // seen=%d\n", typ, gen, in.counter, len(in.seen))))
 		}
 	}
+	if a.DocOfSelf {
+		tags, doc := c.Doc(named.Obj())
+		var ks []string
+		for k, v := range tags {
+			ks = append(ks, fmt.Sprintf("%s=%q", k, v))
+		}
+		sort.Strings(ks)
+		c.Render(snippet.Block(fmt.Sprintf("// DOC-OF-SELF %s.%s tags {%s} doc %q\n", pkg, typ, strings.Join(ks, " "), doc)))
+	}
 	if a.DocOfFields {
 		if st, ok := named.Underlying().(*types.Struct); ok {
 			for i := 0; i < st.NumFields(); i++ {
@@ -439,7 +466,26 @@ func (in *inst) alias(gen string, c gengo.Context, al *types.Alias) error {
 	typ := al.Obj().Name()
 	log = append(log, Event{Kind: "alias", Gen: gen, Pkg: pkg, Type: typ, Inst: in.id})
 	mu.Unlock()
-	if s == nil || s.Alias == nil {
+	if s == nil {
+		return nil
+	}
+	if s.Stateful {
+		// the same per-instance state as for defined types, seen from the alias callback: a helper emitted
+		// once per instance and a running counter
+		quiet := false
+		for _, qp := range s.QuietPkgs {
+			quiet = quiet || qp == pkg
+		}
+		in.aliases++
+		if !quiet {
+			if !in.aliasHelper {
+				in.aliasHelper = true
+				c.Render(snippet.Block("func aliasHelper_" + gen + "() {}\n"))
+			}
+			c.Render(snippet.Block(fmt.Sprintf("const NA_%s_%s = %d\n", typ, gen, in.aliases)))
+		}
+	}
+	if s.Alias == nil {
 		return nil
 	}
 	return in.perform(c, gen, *s.Alias, typ)
@@ -600,7 +646,9 @@ type Spec struct {
 	Force       bool                `json:"force,omitempty"`
 	Base        string              `json:"base,omitempty"`
 	Globals     map[string][]string `json:"globals,omitempty"`
-	Gens        []GenScript         `json:"gens"`
+	// Cwd: the working directory of the run, relative to Dir (entrypoints are relative to it); "" = Dir
+	Cwd  string      `json:"cwd,omitempty"`
+	Gens []GenScript `json:"gens"`
 	// Real names registered generators of the repository to append (runtimedoc, deepcopy, partialstruct, defaulter)
 	Real []string `json:"real,omitempty"`
 	// RealFirst lists the repository's generators BEFORE the scripted ones
@@ -661,7 +709,7 @@ func Exec(spec Spec) (out Outcome) {
 	}
 
 	cwd, _ := os.Getwd()
-	if err := os.Chdir(spec.Dir); err != nil {
+	if err := os.Chdir(filepath.Join(spec.Dir, spec.Cwd)); err != nil {
 		out.LoadErr = "chdir: " + err.Error()
 		return
 	}
